@@ -81,7 +81,13 @@ func (x *XArray) Format(env envs.Environment) string {
 	if multiline {
 		for i, p := range parts {
 			p = utils.Indent(p, "  ")
-			parts[i] = "-" + p[1:]
+
+			// an item starts with "- " in place of the indent of its first line.. which has none if it's empty
+			if strings.HasPrefix(p, "  ") {
+				parts[i] = "- " + p[2:]
+			} else {
+				parts[i] = "-" + p
+			}
 		}
 
 		return strings.Join(parts, "\n")
